@@ -227,6 +227,19 @@ class Flow:
         for f in dead:
             facts.discard(f)
 
+    def _sc_consumers(self):
+        """keys of the leaves of compound conditions that close a full expression at a statement-level branch (`if (!(a || b))`: clang's CFG
+        decomposes the inner `||` but leaves the whole tree as the branch condition): only these can use a short-circuit mark"""
+        if getattr(self, "_scc", None) is None:
+            self._scc = set()
+            for b in self.fn.blocks.values():
+                t = b.get("term") or {}
+                if t.get("c") is not None and t.get("k") not in ("BinaryOperator", "ConditionalOperator"):
+                    lv = E.leaves(t["c"])
+                    if len(lv) >= 2:
+                        self._scc.update(E.key(x) for x in lv)
+        return self._scc
+
     def _leaf_eval(self, env):
         def ev(t):
             for m, b in self.assume:
@@ -460,7 +473,8 @@ class Flow:
                 env2 = dict(env) if short_circuit else {k: v for k, v in env.items() if not k.startswith("@sc:")}
                 if short_circuit:
                     for t, v in imp:
-                        env2["@sc:" + E.key(t)] = v
+                        if E.key(t) in self._sc_consumers():
+                            env2["@sc:" + E.key(t)] = v
                 f2 = set(facts)
                 for t, v in imp:
                     st = E.strip(t)
